@@ -59,7 +59,13 @@ class ParsedHeaders(Mapping[bytes, Sequence[BaseHeader]]):
             #   https://github.com/python/typeshed/pull/4365
             # assign to hdr_name, hdr_value = ... instead.
             hdr_tuple = SMTP.header_source_parse(lines)
-            yield cls._registry(hdr_tuple[0], hdr_tuple[1])
+            hdr_name = hdr_tuple[0].strip()
+            try:
+                yield cls._registry(hdr_name, hdr_tuple[1])
+            except Exception:
+                # The structured header parsers of the standard library
+                # raise assorted exceptions on some malformed values.
+                yield cls._registry(hdr_name, '')
 
     def __repr__(self) -> str:
         return repr(dict(self))
